@@ -13,22 +13,22 @@ def special(name, quick, thorough, **kw):
 CONFIG = {
     "C01": {"jobs": [lockstep("C01", 4000, 60000), lockstep("general", 1500, 20000)]},
     "C02": {"jobs": [lockstep("C02", 4000, 60000), lockstep("general", 1500, 20000), special("spanline", 600, 9000)]},
-    "C03": {"jobs": [lockstep("C03", 4000, 60000), special("resizeidle", 400, 4000)]},
+    "C03": {"jobs": [lockstep("C03", 4000, 60000), special("resizeidle", 400, 4000), special("spanline", 300, 4000)]},
     "C04": {"jobs": [lockstep("C04", 4000, 60000), special("resizeidle", 400, 4000)]},
-    "C05": {"jobs": [lockstep("C05", 4000, 60000), special("resizeidle", 400, 4000)]},
+    "C05": {"jobs": [lockstep("C05", 4000, 60000), special("resizeidle", 400, 4000), special("spanline", 300, 4000)]},
     "C06": {"jobs": [lockstep("C06", 4000, 60000), special("resizeidle", 400, 4000)]},
-    "C07": {"jobs": [lockstep("C07", 4000, 60000), special("roundtrip", 300, 4000)]},
+    "C07": {"jobs": [lockstep("C07", 4000, 60000), special("roundtrip", 300, 4000), special("spanline", 300, 4000)]},
     "C08": {"jobs": [special("segmentation", 1500, 30000)]},
     "C09": {"jobs": [lockstep("C09", 4000, 60000), special("embed", 1500, 30000)]},
-    "C10": {"jobs": [lockstep("C10", 4000, 60000)]},
-    "C11": {"jobs": [special("roundtrip", 1500, 20000), special("ttymirror", 600, 8000), lockstep("C02", 1000, 15000)]},
+    "C10": {"jobs": [lockstep("C10", 4000, 60000), special("spanline", 300, 4000)]},
+    "C11": {"jobs": [special("roundtrip", 1500, 20000), special("ttymirror", 600, 8000), lockstep("C02", 1000, 15000), special("spanline", 300, 4000)]},
     "C12": {"jobs": [special("keys", 200000, 4000000)]},
     "C13": {"jobs": [special("mouse", 1, 1)]},
     "C14": {"jobs": [lockstep("C14", 4000, 60000)]},
     "C15": {"jobs": [lockstep("C10", 1500, 20000), special("locks", 40, 400, race=True), special("resizeidle", 600, 6000)]},
     "C16": {"jobs": [special("streams", 1500, 30000), lockstep("C16g", 1500, 30000)]},
     "C17": {"jobs": [lockstep("C17", 4000, 60000)]},
-    "C18": {"jobs": [lockstep("C18", 4000, 60000), special("resizeidle", 600, 6000)]},
+    "C18": {"jobs": [lockstep("C18", 4000, 60000), special("resizeidle", 600, 6000), special("spanline", 300, 4000)]},
     "C19": {"jobs": [lockstep("C19", 3000, 60000), special("kbdexhaustive", 1, 2)]},
-    "C20": {"jobs": [special("gridspan", 3000, 60000), lockstep("C20", 2000, 30000)]},
+    "C20": {"jobs": [special("gridspan", 3000, 60000), lockstep("C20", 2000, 30000), special("spanline", 300, 4000)]},
 }
